@@ -486,7 +486,7 @@ func init() {
 		Rule:        "PRNG histories of register / registerTLD / transfer (other, self, contract) / renew (1..10, 0, 11, default overload) / setAdmin over 10 names of level 2-4 under a long-lived and a short-lived TLD, 3 users and a contract owner, the clock stepped by seconds and onto the instants exp-1 / exp / exp+1 of live names and TLDs; the shared NNS reference model predicts outcome and notifications; after every operation totalSupply, raw sum of balances, balanceOf, tokensOf, tokens and isAvailable / ownerOf / properties of every pool name (also at the three boundary instants) are compared. distinct = (method, signers, reason, outcome).",
 		Assumptions: append(tb, "isAvailable under an expired or missing parent chain is logged, not judged"),
 		Batches:     tier(192, 2048), Helpers: []string{"holder", "registrar"}, Chunk: 8,
-		Floors: []string{"bought-through-a-re-entering-contract", "register:ok", "register:false", "takeover-of-expired-name", "transfer:ok", "transfer:false", "renew:ok", "renew:fail", "isAvailable@exp-1", "isAvailable@exp", "isAvailable@exp+1", "ownerOf-answers@exp-1", "ownerOf-refuses-under-expired-parent", "parent-tld-boundary", "setAdmin:ok"},
+		Floors: []string{"parent-zone-record-named-like-a-free-name", "bought-through-a-re-entering-contract", "register:ok", "register:false", "takeover-of-expired-name", "transfer:ok", "transfer:false", "renew:ok", "renew:fail", "isAvailable@exp-1", "isAvailable@exp", "isAvailable@exp+1", "ownerOf-answers@exp-1", "ownerOf-refuses-under-expired-parent", "parent-tld-boundary", "setAdmin:ok"},
 		Run:    runC10,
 	})
 	runner.Register(&runner.Check{
